@@ -27,7 +27,7 @@ RULE = ("the malformed stream: every documented class of invalid input instantia
         "constructors and, inside random circuits at a random position across two partitions, to partition_circuit_qubits, partition_problem, cut_gates, find_cuts, "
         "next to the same requests with the expression fully bound; deterministic family (oracle only): dictionary-form reconstruction over 2-3 partitions "
         "with different numbers of commuting groups, results dictionary in every key order, counts correct / off in one partition / interchanged between two; "
-        "deterministic family (oracle on every case): expand_observables with observables of every width 1..n+2 for original circuits of n = 2..6 qubits (only width n accepted); compared: error enum (ValueError / accepted) and, on refusal, deep snapshots of the arguments")
+        "deterministic family (oracle on every case): ccx/cswap/ccz/rccx/c3x/rcccx at any position of a circuit with every distribution of its arguments over partitions (one partition = valid; first / middle / last argument alone elsewhere; first and last together against the middle; three partitions) through partition_circuit_qubits, partition_problem and (always refused) cut_gates; deterministic family (oracle on every case): expand_observables with observables of every width 1..n+2 for original circuits of n = 2..6 qubits (only width n accepted); compared: error enum (ValueError / accepted) and, on refusal, deep snapshots of the arguments")
 ASSUMPTIONS = ["'without modifying the arguments' is a runtime statement: checked by deep snapshots before/after every refused call",
                "partition / search / decomposition refusals reuse the models of C10, C07, C02, C13, C17 (delegated cases)"]
 
@@ -192,7 +192,67 @@ def _family_expand_widths():
                               "cls": "expand_width", "always_oracle": True})
 
 
+BIG_GATES = [("ccx", 3), ("cswap", 3), ("ccz", 3), ("rccx", 3), ("c3x", 4), ("rcccx", 4)]
+# partition of the ARGUMENTS of the wide gate (first ... last): which of them is the odd one out / how many partitions it touches
+BIG_PATTERNS = {3: ["AAA", "AAB", "ABA", "BAA", "ABC", "BAB"], 4: ["AAAA", "AAAB", "AABA", "ABAA", "BAAA", "ABBA", "AABB", "ABAB", "ABCA", "ACBB"]}
+BIG_ENTRIES = ["partition_circuit_qubits", "partition_problem", "cut_gates"]
+
+
+def _family_big_gates():
+    """Deterministic family (seed independent): a gate on three or four qubits (ccx, cswap, ccz, rccx, c3x, rcccx) inside a circuit of
+    one- and two-qubit gates, at any position, its arguments on any circuit qubits in any order, with EVERY way of distributing its
+    arguments over partitions: all in one partition (a valid request: nothing to cut), the first / a middle / the last argument alone in
+    another partition, first and last together against the middle ones, three partitions.  Handed to partition_circuit_qubits and to
+    partition_problem (refusal required exactly when the arguments carry two or more different labels, whichever argument is the odd one
+    out) and to cut_gates with the index of the wide gate (always refused)."""
+    import random
+    r = random.Random(181018)
+    t = 0
+    for gate, k in BIG_GATES:
+        for pat in BIG_PATTERNS[k]:
+            for entry in BIG_ENTRIES:
+                if entry == "cut_gates" and pat not in ("AAA", "ABA", "AAAA", "ABBA"):
+                    continue
+                t += 1
+                nq = k + 1 + t % 2
+                qs = r.sample(range(nq), k)
+                labels = [None] * nq
+                for q, ch in zip(qs, pat):
+                    labels[q] = "ABC".index(ch)
+                for q in range(nq):
+                    if labels[q] is None:
+                        labels[q] = r.randrange(1 + max("ABC".index(c) for c in pat)) if t % 3 else "ABC".index(pat[0])
+                npart = 1 + max(labels)
+                # labels in use must be 0..npart-1 without gaps (c10's payload format)
+                used = sorted(set(labels))
+                labels = [used.index(x) for x in labels]
+                npart = len(used)
+                groups = {g: [q for q in range(nq) if labels[q] == g] for g in range(npart)}
+                ctx = []
+                for _ in range(r.randint(2, 5)):
+                    g = r.choice(list(groups.values()))
+                    m = r.random()
+                    if m < 0.4 and len(g) >= 2:
+                        ctx.append({"name": r.choice(["cx", "cz", "swap"]), "qubits": r.sample(g, 2)})
+                    elif m < 0.6 and npart >= 2 and entry != "cut_gates":
+                        a, b = r.sample(range(npart), 2)
+                        ctx.append({"name": r.choice(["cx", "cz"]), "qubits": [r.choice(groups[a]), r.choice(groups[b])]})
+                    else:
+                        ctx.append({"name": r.choice(["h", "s", "x", "sx"]), "qubits": [r.randrange(nq)]})
+                pos = r.randint(0, len(ctx))
+                instrs = ctx[:pos] + [{"name": gate, "qubits": qs}] + ctx[pos:]
+                for q in range(nq):
+                    if not any(q in i["qubits"] for i in instrs):
+                        instrs.append({"name": "h", "qubits": [q]})
+                yield ("big", {"nq": nq, "qregs": [nq] if t % 4 else [1, nq - 1], "instrs": instrs, "labels": labels,
+                               "pool_idx": [[0, 1, 4], [2, 5, 9], [4, 0, 3]][t % 3][:npart],
+                               "obs": [{"l": "".join(r.choice("IXYZ") for _ in range(nq)), "p": 0} for _ in range(1 + t % 2)] if entry == "partition_problem" else None,
+                               "bases": [], "cregs": [], "cls": "big_gate_any", "entry": entry, "big": {"gate": gate, "pos": pos, "qubits": qs, "pattern": pat},
+                               "always_oracle": True})
+
+
 def cases(rng, tier):
+    yield from _family_big_gates()
     yield from _family_expand_widths()
     yield from _family_result_counts()
     yield from _family_unbound_angles()
@@ -324,6 +384,11 @@ def model_line(kind, payload):
         return c10.model_line("partition_problem", payload)
     if kind == "find":
         return cutfind.model_line(payload)
+    if kind == "big":
+        if payload["entry"] == "cut_gates":
+            # no model line for cut_gates on a wide gate: a trivial line keeps the protocol in step, the oracle decides
+            return {"op": "c18.half", "basis_qubits": 1, "qubit_id": 0}
+        return c10.model_line(payload["entry"], payload)
     if kind == "refuse":
         return c02.model_line("refuse", payload)
     if kind == "expand":
@@ -396,6 +461,26 @@ def run_real(kind, payload):
         qc = cutfind.build(payload)
         before = json.dumps(canon.snapshot(qc), sort_keys=True, default=str)
         return cutfind.run_real(payload)
+    if kind == "big":
+        from qiskit_addon_cutting import partition_circuit_qubits, partition_problem, cut_gates
+        qc, bases, labels, obs = c10._objs(payload)
+        entry = payload["entry"]
+        wide = [k for k, inst in enumerate(qc.data) if len(inst.qubits) > 2]
+        before = _snap_pp(qc, labels, obs)
+        try:
+            if entry == "partition_circuit_qubits":
+                partition_circuit_qubits(qc, labels)
+            elif entry == "partition_problem":
+                partition_problem(qc, labels, obs)
+            else:
+                cut_gates(qc, wide)
+        except ValueError:
+            if _snap_pp(qc, labels, obs) != before:
+                return {"error": "ValueError", "mutated": "arguments were modified by the refused call"}
+            raise
+        if entry == "cut_gates":
+            return {"ok": "accepted"}
+        return c10.run_real(entry, payload)
     if kind == "refuse":
         return c02.run_real("refuse", payload)
     if kind == "expand":
@@ -611,6 +696,8 @@ def model_canon(kind, payload, out):
         return c10.model_canon("partition_problem", payload, out)
     if kind == "find":
         return cutfind.model_canon(out)
+    if kind == "big":
+        return out if payload["entry"] == "cut_gates" else c10.model_canon(payload["entry"], payload, out)
     if kind == "refuse":
         return c02.model_canon("refuse", payload, out)
     if kind == "expand":
@@ -633,6 +720,8 @@ def compare(kind, payload, real, model):
         return c10.compare("partition_problem", payload, real, model)
     if kind == "find":
         return cutfind.compare(payload, real, model)
+    if kind == "big":
+        return None if payload["entry"] == "cut_gates" else c10.compare(payload["entry"], payload, real, model)
     if kind == "refuse":
         return c02.compare("refuse", payload, real, model)
     if kind == "expand":
@@ -665,6 +754,11 @@ def _expected_invalid(kind, payload):
         if c == "big_gate":
             return True if any(i["name"] == "ccx" for i in payload["instrs"]) else None
         return True
+    if kind == "big":
+        # a gate on more than two qubits has to be cut exactly when its arguments carry two or more different partition labels
+        # (whichever argument is the odd one out); naming it to cut_gates always asks for it to be cut
+        b = payload["big"]
+        return payload["entry"] == "cut_gates" or len({payload["labels"][q] for q in b["qubits"]}) > 1
     if kind == "find":
         return (payload["width"] < 1 or payload["max_gamma"] < 1 or (payload["max_backjumps"] is not None and payload["max_backjumps"] < 0)
                 or any(len(i["qubits"]) > 2 and i["name"] != "barrier" for i in payload["instrs"])) or None
@@ -735,6 +829,21 @@ def oracle(kind, payload):
             return f"{ctx}: the mismatched result counts ({payload['how']}) were not refused with ValueError: {str(real)[:160]}"
         if not exp and "error" in real:
             return f"{ctx}: a request with the right number of results in every partition raised {real['error']}"
+        return None
+    if kind == "big":
+        b = payload["big"]
+        labs = [gen.LABEL_POOL[payload["pool_idx"][i]] for i in payload["labels"]]
+        ctx = (f"{payload['entry']}: {b['gate']} on qubits {b['qubits']} (instruction {b['pos']} of a {payload['nq']}-qubit circuit), partition labels "
+               f"{labs!r} -- the gate's arguments carry {[labs[q] for q in b['qubits']]!r}")
+        if exp and real.get("error") != "ValueError":
+            return (f"{ctx}: a gate on {len(b['qubits'])} qubits that would have to be cut was not refused with ValueError: "
+                    f"{'returned a result' if 'ok' in real else str(real)[:160]}")
+        if not exp:
+            if "error" in real:
+                return f"{ctx}: all arguments in one partition (nothing to cut), but the request raised {real['error']}"
+            if payload["entry"] == "partition_circuit_qubits" and not any(
+                    len(i["qubits"]) > 2 and i["qubits"] == b["qubits"] for i in real["ok"]["instrs"]):
+                return f"{ctx}: all arguments in one partition, but the gate is not in the returned circuit on the same qubits"
         return None
     if exp:
         if real.get("error") == "ValueError":
